@@ -4,7 +4,8 @@
 # the "must stay quiet" variants B*, against all claimed checks), in a scratch worktree each.
 # Writes tools/mutants/results.json: mutant -> property -> exit code / first violation.
 set -u
-cd /verif
+HERE="$(cd "$(dirname "$0")/.." && pwd)"
+cd "$HERE"
 export MUT_TARGET=/tmp/orxsim-mut-target MUT_RUNS="${MUT_RUNS:-30000}"
 ALL=$(jq -r '.checks[].property_id' MANIFEST.json | tr '\n' ' ')
 RES=tools/mutants/results.json; [ -f "$RES" ] || echo '{}' > "$RES"
